@@ -752,3 +752,19 @@ def win_in_loop(n: size, A: f32[n + 2, n + 2], b: f32[n]):
         w[0] = 1.0
         b[0] = w[0]
 ''')
+
+# a buffer that is only REDUCED into after a point is still live there (seeded change C01_4 made Check_IsDeadAfter
+# look at reads and writes only): reuse_buffer / delete_buffer must keep rejecting
+add("reduce_only_after", '''
+@proc
+def reduce_only_after(n: size, x: f32[n], y: f32[n]):
+    acc: f32
+    acc = 0.0
+    for i in seq(0, n):
+        t: f32
+        t = x[i]
+        acc += t
+        y[i] = t
+    d: f32
+    d += x[0]
+''')
